@@ -130,3 +130,226 @@ def run(ctx):
               and "super" in src(cc.func.value)]
         ctx.check("R11.2", f"{c.key}::base constructor receives (residual, sqrt-metric callable)",
                   len(sc) == 1 and len(sc[0].args) + len(sc[0].keywords) == 2, f"{[short(x) for x in sc]}", init)
+
+
+# ---------------------------------------------------------------------------------------------------------------- R11.3 / R11.4
+def r11_3(ctx, m):
+    """accumulator recursion of _LikelihoodSum.unpack: unpack(ops, res) == res ++ flat(ops)"""
+    S = m.cls(EO, "_LikelihoodSum")
+    fi = S.methods.get("unpack")
+    ctx.rule("R11.3", "_LikelihoodSum.unpack(ops, res) returns res followed by the flattened summands: in every branch of the loop "
+                      "the accumulator is replaced by itself followed by exactly one new piece (the recursive call receives the "
+                      "accumulator and its result replaces it, or receives an empty list and its result is appended); make() starts "
+                      "from an empty accumulator", floor=3)
+    if fi is None:
+        ctx.error("_LikelihoodSum.unpack missing")
+        return
+    ctx.saw_func(fi)
+    ps = fi.params()
+    ops, acc = ps[1], ps[2]
+    loops = [st for st in fi.node.body if isinstance(st, ast.For) and src(st.iter) == ops]
+    key = f"{fi.key}::loop over the summands"
+    if len(loops) != 1:
+        ctx.und("R11.3", key, f"{len(loops)} loops over `{ops}`", fi)
+        return
+    lv = src(loops[0].target)
+
+    def seq(e):
+        """expression -> list of pieces: 'ACC', ('flat', text), ('item', text) ; None if not understood"""
+        if isinstance(e, ast.Name) and e.id == acc:
+            return ["ACC"]
+        if isinstance(e, ast.List):
+            return [("item", src(x)) for x in e.elts]
+        if isinstance(e, ast.BinOp) and isinstance(e.op, ast.Add):
+            a, b = seq(e.left), seq(e.right)
+            return None if a is None or b is None else a + b
+        if isinstance(e, ast.Call) and isinstance(e.func, ast.Attribute) and e.func.attr == fi.name and len(e.args) == 2:
+            a = seq(e.args[1])
+            return None if a is None else a + [("flat", src(e.args[0]))]
+        return None
+
+    def branches(stmts, conds):
+        out = []
+        for st in stmts:
+            if isinstance(st, ast.If):
+                t_, pol_ = st.test, True
+                while isinstance(t_, ast.UnaryOp) and isinstance(t_.op, ast.Not):
+                    t_, pol_ = t_.operand, not pol_
+                out += branches(st.body, conds + [(src(t_), pol_)])
+                out += branches(st.orelse, conds + [(src(t_), not pol_)])
+            else:
+                out.append((st, conds))
+        return out
+    n = 0
+    for st, conds in branches(loops[0].body, []):
+        nested = any(c == f"isinstance({lv}, {ps[0]})" and pol for c, pol in conds)
+        bkey = f"{fi.key}::{'nested sum' if nested else 'plain summand'} branch"
+        new = None
+        if isinstance(st, ast.Assign) and len(st.targets) == 1 and src(st.targets[0]) == acc:
+            new = seq(st.value)
+        elif isinstance(st, ast.AugAssign) and src(st.target) == acc and isinstance(st.op, ast.Add):
+            s_ = seq(st.value)
+            new = None if s_ is None else ["ACC"] + s_
+        elif isinstance(st, ast.Expr) and isinstance(st.value, ast.Call) and isinstance(st.value.func, ast.Attribute) \
+                and src(st.value.func.value) == acc and st.value.func.attr in ("append", "extend") and len(st.value.args) == 1:
+            a = st.value.args[0]
+            s_ = [("item", src(a))] if st.value.func.attr == "append" else seq(a)
+            new = None if s_ is None else ["ACC"] + s_
+        if new is None:
+            ctx.und("R11.3", bkey, f"`{short(st)}` not understood", fi, st)
+            continue
+        n += 1
+        want = ("flat", f"{lv}._ops") if nested else ("item", lv)
+        ctx.check("R11.3", bkey, new == ["ACC", want],
+                  f"accumulator becomes {new}; expected ['ACC', {want}]" + (" - the summands collected so far are duplicated" if new.count("ACC") > 1 else ""), fi, st)
+    rr = [r for r in walk_no_nested(fi.node) if isinstance(r, ast.Return)]
+    ctx.check("R11.3", f"{fi.key}::returns the accumulator", len(rr) == 1 and src(rr[0].value) == acc, None, fi)
+    mk = S.methods.get("make")
+    if mk is not None:
+        calls = [c for c in ast.walk(mk.node) if isinstance(c, ast.Call) and isinstance(c.func, ast.Attribute) and c.func.attr == fi.name]
+        ctx.check("R11.3", f"{mk.key}::starts from an empty accumulator", len(calls) == 1 and [src(a) for a in calls[0].args] == [mk.params()[1], "[]"],
+                  "; ".join(src(c) for c in calls), mk)
+
+
+# expectation of the data under the likelihood itself, per class (frozen; reason)
+EXPECT = {
+    "PoissonianEnergy": ({"d": "X"}, "E[d] = lambda for Poisson counts"),
+    "BernoulliEnergy": ({"d": "X"}, "E[d] = p for Bernoulli events"),
+    "CategoricalEnergy": ({"d": "X"}, "E[d_i] = p_i for one-hot categorical data"),
+    "InverseGammaEnergy": ({"beta": "alphap1*X"}, "beta ~ Gamma(shape alpha+1, scale x): E[beta] = (alpha+1) x"),
+    "_SpecialGammaEnergy": ({}, "second derivative does not depend on the residual"),
+}
+FISHER_CONST = {
+    "StudentTEnergy": ("(theta+1)/(theta+3)", "Fisher information of the location of a Student-t with theta degrees of freedom (unit scale)"),
+}
+
+
+def r11_4(ctx, m):
+    from .c03 import _load_sympy
+    from ..fieldsym import FieldSym, NotUnderstood
+    ctx.rule("R11.4", "Fisher identity per energy (real-valued case, per pixel): with E the energy term of apply() and T the "
+                      "transformation of get_transformation(), (dT/dx)^2 equals the expectation over the data of d^2E/dx^2 "
+                      "(sympy as term normaliser; expectation of the data from a frozen table)", floor=6)
+    sp = _load_sympy()
+    if sp is None:
+        ctx.und("R11.4", f"{EO}::sympy", "sympy not importable", EO)
+        return
+    for cname in list(EXPECT) + list(FISHER_CONST):
+        C = m.cls(EO, cname)
+        ap, gt = C.methods.get("apply"), C.methods.get("get_transformation")
+        key = f"{C.key}::(dT/dx)^2 == E_d[d^2E/dx^2]"
+        if ap is None or gt is None:
+            ctx.und("R11.4", key, "apply/get_transformation missing", C)
+            continue
+        ctx.saw_func(ap)
+        ctx.saw_func(gt)
+        xn = ap.params()[1]
+        fs = FieldSym(sp, facts={"self._cplx": False, f"{xn}.want_metric": False})
+        try:
+            E, _ = fs.run(ap.node.body, {xn: fs.X})
+            T, _ = fs.run(gt.node.body, {})
+        except NotUnderstood as exc:
+            ctx.und("R11.4", key, f"term not understood: {exc}", C)
+            continue
+        if E is None or T is None:
+            ctx.und("R11.4", key, "no returned term", C)
+            continue
+        X = fs.X
+        Epp = sp.diff(E, X, 2)
+        if cname in EXPECT:
+            sub, why = EXPECT[cname]
+            loc = {"X": X}
+            loc.update({k.strip("_"): v for k, v in fs.syms.items()})
+            for dname, expr in sub.items():
+                dsym = fs.syms.get("_" + dname) or fs.syms.get(dname)
+                if dsym is None:
+                    Epp = None
+                    break
+                Epp = Epp.subs(dsym, sp.sympify(expr, locals={k: v for k, v in loc.items()}))
+            if Epp is None:
+                ctx.und("R11.4", key, f"data attribute of the expectation table not found among {sorted(fs.syms)}", C)
+                continue
+            fisher = Epp
+        else:
+            cexpr, why = FISHER_CONST[cname]
+            loc = {k.strip("_"): v for k, v in fs.syms.items()}
+            fisher = sp.sympify(cexpr, locals=loc)
+        Tp2 = sp.diff(T, X) ** 2
+        diff = sp.simplify(Tp2 - fisher)
+        if diff != 0:
+            # second normaliser pass: exact evaluation at rational points (identity of analytic terms)
+            free = sorted(diff.free_symbols, key=str)
+            pts = [sp.Rational(1, 3), sp.Rational(2, 7), sp.Rational(3, 5), sp.Rational(5, 11)]
+            vals = []
+            for i in range(3):
+                v = diff.subs({s_: pts[(i + j) % len(pts)] for j, s_ in enumerate(free)})
+                vals.append(sp.simplify(v))
+            zero = all(v == 0 for v in vals)
+        else:
+            zero = True
+        ctx.check("R11.4", key, bool(zero),
+                  f"E = {E}; T = {T}; (dT/dx)^2 = {sp.simplify(Tp2)}; Fisher = {sp.simplify(fisher)} [{why}]", C, gt.node)
+
+
+_run_c11b = run
+
+
+def run(ctx):  # noqa: F811
+    _run_c11b(ctx)
+    r11_3(ctx, ctx.model)
+    r11_4(ctx, ctx.model)
+
+
+def r11_5(ctx, m):
+    """the metric J^dagger J is Hermitian positive: scaling shortcut of SandwichOperator.make"""
+    import copy
+    from ..poly import cpoly, p_sym, p_add, p_mul, p_str
+    SW = m.cls("nifty.cl.operators.sandwich_operator", "SandwichOperator")
+    mk = SW.methods.get("make")
+    ctx.rule("R11.5", "SandwichOperator.make (which builds every likelihood metric J^dagger J): for a scaling bun with factor f the "
+                      "cheese is scaled by |f|^2 = re^2 + im^2 (a real, non-negative number), otherwise the operator is "
+                      "bun.adjoint @ cheese @ bun", floor=2)
+    if mk is None:
+        ctx.error("SandwichOperator.make missing")
+        return
+    ctx.saw_func(mk)
+    cfg = cfg_of(mk)
+    rd = cfg.reaching_defs(mk.params())
+    pp = [p_ for p_ in mk.params() if p_ not in ("cls", "self")]
+    bn = pp[0]
+    scale_sites = find_nodes(cfg, lambda q: isinstance(q, ast.Call) and isinstance(q.func, ast.Attribute) and q.func.attr == "scale" and len(q.args) == 1)
+    key = f"{mk.key}::scaling bun: cheese scaled by |factor|^2"
+    if len(scale_sites) != 1:
+        ctx.und("R11.5", key, f"{len(scale_sites)} `.scale(...)` sites", mk)
+    else:
+        n, c = scale_sites[0]
+        at = known_atoms(cfg, n.id)
+        guarded = any(pol and src(t) == f"isinstance({bn}, ScalingOperator)" for t, pol in at)
+        e = inline_at(cfg, rd, n.id, c.args[0], depth=2)
+
+        class Sub(ast.NodeTransformer):
+            def visit_Attribute(self, node):
+                if src(node) == f"{bn}._factor":
+                    return ast.Name(id="__f", ctx=ast.Load())
+                return self.generic_visit(node)
+        try:
+            got = cpoly(Sub().visit(copy.deepcopy(e)), {"__f": (p_sym("re"), p_sym("im"))})
+            want = (p_add(p_mul(p_sym("re"), p_sym("re")), p_mul(p_sym("im"), p_sym("im"))), {})
+            ctx.check("R11.5", key, guarded and got == want,
+                      f"factor = {src(e)} = ({p_str(got[0])}) + i({p_str(got[1])}) for f = re + i im; J^dagger J needs re^2 + im^2", mk, c)
+        except KeyError as exc:
+            ctx.und("R11.5", key, f"term not understood: {exc}", mk, c)
+    # general branch
+    ops = [nn for nn in cfg.nodes if nn.kind == "stmt" and isinstance(nn.ast, ast.Assign) and isinstance(nn.ast.value, ast.BinOp)
+           and isinstance(nn.ast.value.op, ast.MatMult) and "adjoint" in src(nn.ast.value)]
+    txt = [src(nn.ast.value).replace(" ", "") for nn in ops]
+    cheese = pp[1]
+    ctx.check("R11.5", f"{mk.key}::general bun: op = bun.adjoint @ cheese @ bun", txt == [f"{bn}.adjoint@{cheese}@{bn}"], str(txt), mk)
+
+
+_run_c11c = run
+
+
+def run(ctx):  # noqa: F811
+    _run_c11c(ctx)
+    r11_5(ctx, ctx.model)
